@@ -51,11 +51,91 @@ CLAIMS['C13'] = dict(
           'left unconstrained as in the statement; zero-length path segments are outside.'),
     design='§5 C13')
 
+GDS_NOTE = ('Compositional: the end-to-end GdsLibrary::write / from_bytes cannot be executed symbolically (probes in design-probes/), so the '
+            'property is decided layer by layer (record codec, element grammar, library header) on the real private functions, plus a '
+            'written composition argument (DESIGN §4). Stubs: core::str::from_utf8 -> byte-wise UTF-8 DFA (validated against the real '
+            'function on all strings <= 3 bytes at every run); GdsFloat64::encode/decode -> bit identity (the codec is C15); '
+            'GdsParser::next -> hands out the harness record list (its contract is checked by c01_q_l2n_next); alloc::fmt::format -> '
+            'empty string. READER_BUFSIZE is 64 under cfg(kani) (payloads < 64 bytes). Properties (PROPATTR/PROPVALUE) are NOT covered '
+            'at tree level on the reader side (CBMC pointer-model artefact on props.push, DESIGN §4); they are covered at record level '
+            'and on the writer side. Struct/library level with elements only in the thorough tier.')
+CLAIMS['C01'] = dict(
+    text=('For each of the 49 record kinds (strings of 0-3 bytes of any well-formed UTF-8 incl. NUL, XY of 0/2/5 values, any dates, reals '
+          'in range) the bytes of the real write_record read back through read_record_header + read_record_content to an equal record, '
+          'consuming exactly the payload; a string ending in NUL is refused. For each of the seven element kinds and 74 optional-field '
+          'masks the record list of the real Encode::encode_<kind> is parsed back by the real parse_<kind> to an equal element; the empty '
+          'library round-trips through encode_lib / parse_lib (1-2 structs x 1-2 elements thorough); the look-ahead iterator next/peek '
+          'returns the source records in order and never reads past ENDLIB. Each instance is one SAT query over all payload values; the '
+          'quick tier runs 11 fixed instances plus 5 chosen by VERIF_SEED, the thorough tier all ~160.'),
+    note=GDS_NOTE, design='§4 C01/C02/C03/C10')
+CLAIMS['C02'] = dict(
+    text=('Differential against a reference encoder written from the GDSII specification (record numbers, data types, big-endian, NUL '
+          'padding, STRANS bits, BNF order): the real write_record produces byte-for-byte the reference bytes for all 49 record kinds, '
+          'with an even length field >= 4 equal to the bytes present; the 16-bit length limit is exact (65530-byte string / 16382-value XY '
+          'accepted, one more refused); the record list of encode_<kind> for each element kind x optional-field mask (with properties) and '
+          'of encode_lib equals the reference flattening and ends with ENDLIB; GdsRecordList collects the same list.'),
+    note=GDS_NOTE, design='§4 C01/C02/C03/C10')
+CLAIMS['C03'] = dict(
+    text=('The reference encoder feeds the real reader: reference bytes of every record kind (followed by tape padding) read back to the '
+          'record; odd strings padded with one NUL and even strings unpadded yield exactly their characters; reference record lists of '
+          'every element kind x optional-field mask are parsed by the real parse_<kind> to the element; a library-level LIBDIRSIZE / '
+          'SRFNAME / LIBSECUR / REFLIBS / FONTS / ATTRTABLE / GENERATIONS / FORMAT record at its BNF position yields Err(Unsupported); a '
+          'record after ENDLIB is never requested.'),
+    note=GDS_NOTE, design='§4 C01/C02/C03/C10')
+CLAIMS['C10'] = dict(
+    text=('Absence of panics / overflow / out-of-bounds at the two byte-facing layers of the reader, where every crash found so far lives: '
+          'read_record_header on 0-4 arbitrary bytes (accepted => even length >= 4, valid record and data type, payload = length - 4); '
+          'read_record_content for every valid record type x ANY data type x payload length in {0,2,4,8,24} (strings and XY also 6,12,16) '
+          'x arbitrary payload bytes x arbitrary truncation of the source: no panic, Ok => exactly len bytes consumed and never a '
+          'truncated payload, an impossible (type, length) pair is rejected. 279 instances (quick: 5 fixed + 8 by VERIF_SEED).'),
+    note=(GDS_NOTE + ' NOT decided: the parser layer on malformed record sequences (early returns that drop builders and property '
+          'vectors trip CBMC\'s allocator model: 8 of 10 sampled instances fail with free()/pointer artefacts or run out of memory; kept '
+          'as c10_x_p_* experiments), hence also linear-time termination of the parsers and the "never accept a stream without ENDLIB" '
+          'clause beyond what C01/C03 show on well-formed streams.'),
+    design='§4 C01/C02/C03/C10')
+CLAIMS['C07'] = dict(
+    text=('Partial: the export-side kernels the statement singles out. label_location lies in the closed shape for rectangles (i32 '
+          'corners), two-point Manhattan paths and (thorough) every non-degenerate triangle on the grid +-2 against the exact C13 oracle; '
+          'export_shape turns a rectangle into the closed five-point boundary through its corners with its layer/datatype numbers and keeps '
+          'a path open with exactly its points and width, over all of i64 (out-of-range => Err, never truncation); each of the four Units '
+          'written by export_lib is mapped back to itself by import_units.'),
+    note=('Dropped clauses (all behind std hash containers or Ptr graphs that do not finish): equality of cells/instances/shapes after '
+          're-import, net names after re-import, layer/purpose number mapping, polygon export (collect::<Result<Vec>> does not finish), '
+          'instance export (Ptr<Cell> read runs out of memory), U/L-shaped polygons (need >= 6 vertices). Exporter/importer objects are '
+          'partially initialised under Kani (only the error-context stack is touched by these kernels). chrono/now() is stubbed for '
+          'GdsLibrary::new in the units harness.'),
+    design='§4 C07')
+CLAIMS['C09'] = dict(
+    text=('Partial: the placement arithmetic. Placer::resolve_instance_place for a reference instance with symbolic size, location and '
+          'reflections, a placed instance with symbolic size and reflections, every side x orthogonal alignment, and separation none / in '
+          'primitive pitches / by size of another cell: with the resolved location the placed box touches the reference box on the side at '
+          'the separation and is flush on the alignment edge; Instance::boundbox is the outline mirrored about the origin per reflection. '
+          'Sizes, locations, separations over the i16 range. Because the reference instance is arbitrary, chains follow link by link.'),
+    note=('Dropped: listing-order independence and cyclic-relation errors (the orderer is a HashSet walk), array expansion '
+          '(flatten_array_inst does not finish in 15 min), whole Placer::place. The Placer lives in a stack slot with its (never read) '
+          'validated stack uninitialised under Kani.'),
+    design='§4 (C09), §5')
+CLAIMS['C14'] = dict(
+    text=('Partial: kernel pairs export∘import of the raw <-> protobuf conversion on symbolic values: Rect (compared as boxes; and '
+          'proto->raw->proto gives the equal message), Polygon (3 points), Path (2 points, width), nets on each shape kind (Some(net) <-> '
+          'non-empty string), Instance (name, target cell, location, reflection, rotation None/90/180/270), Units and text annotations; '
+          'Units::Pico => Err; each mandatory sub-message removed in turn => Err, the complete message accepted.'),
+    note=('ProtoImporter::import_reference is stubbed to a harness-chosen cell for local references (it wraps a HashMap lookup). Dropped: '
+          'dependency-ordered export, reference resolution, per-layer grouping, layer/purpose numbers, abstracts (hash containers). Names '
+          'are fixed one-character strings (their content is only cloned).'),
+    design='§4 C14')
+
 NOT_APPLICABLE = {
-    'C06': 'every import kernel is gated by std HashMap/HashSet (cell_map, Layers, label buckets, GdsDepOrder); hash containers neither execute under CBMC in 20 min nor can be stubbed (Kani rejects generic-method stubs) — DESIGN §6; the flattening/containment halves are checked under C12/C13',
-    'C17': 'all six orderers are entirely a DFS over HashSet::{contains,insert,remove}; a 3-node instance did not leave symbolic execution in 20 min even with the hasher stubbed; no code left once the set is removed — DESIGN §6',
-    'C18': 'the property lives in serde_json/serde_yaml/yaml-rust/ryu text emitters and parsers (input-length loops, float printing/parsing); from_utf8 on 4 bytes and f64::from_str on 3 bytes each exceed 15-20 min under CBMC; stubbing them removes the subject — DESIGN §6',
-    'C20': 'quantifies over per-process hash seeds / bucket order and separate processes: not an input-output relation a bounded solver query expresses, and the containers involved cannot be executed symbolically — DESIGN §6',
+    'C04': 'no-go after measurement: a CONCRETE 13-token LEF text takes 195 s to parse under Kani (~15 s/token), the lexer on one symbolic 2-byte character does not finish in 20 min, once_cell Lazy statics ICE Kani, f64/Decimal::from_str and char classes each need stubs (DESIGN §5)',
+    'C05': 'same code path as C04 plus the writer\'s fmt machinery; no-go (DESIGN §5)',
+    'C06': 'every import kernel is gated by std HashMap/HashSet (cell_map, Layers, label buckets, GdsDepOrder); hash containers neither execute under CBMC in 20 min nor can be stubbed (Kani rejects generic-method stubs); the flattening/containment halves are checked under C12/C13',
+    'C08': 'Track::cut_or_block / set_net harnesses run out of memory at 10 GB, to_layer_period / ValidMetalLayer harnesses time out at 15 min (Vec edits at computed indices, Ptr<Instance>); harness text kept in harness/incrate/tetris_conv_raw.rs (DESIGN §5)',
+    'C11': 'LEF lexer on one symbolic two-byte character does not finish in 20 min; parser per-token cost as C04; no-go (DESIGN §5)',
+    'C16': 'rust_decimal 96-bit limb loops (rescale / unaligned_add / div_by_u32) do not finish: four harnesses incl. a trivial one hit 50-minute timeouts with concrete scale and |mantissa| <= 2^20; the two defects the harness bodies expose were shown by native replay and repaired (DESIGN §5, §6)',
+    'C17': 'all six orderers are entirely a DFS over HashSet::{contains,insert,remove}; a 3-node instance did not leave symbolic execution in 20 min even with the hasher stubbed',
+    'C18': 'the property lives in serde_json/serde_yaml/yaml-rust/ryu text emitters and parsers (input-length loops, float printing/parsing)',
+    'C19': 'after the stack-slot discipline one kernel (assignments/cuts, 50 s) is decided but outlines (heap vector lengths inside import_outline), instances (Ptr<Cell>) and the missing-sub-message selector run out of memory or time out; too thin to register (DESIGN §5)',
+    'C20': 'quantifies over per-process hash seeds / bucket order and separate processes: not an input-output relation a bounded solver query expresses, and the containers involved cannot be executed symbolically',
 }
 
 PENDING = {}
@@ -101,7 +181,7 @@ def main():
                     'An ordinary cargo build/test sees neither cfg.'),
             baseline_off_cmd='bin/baseline',
             source_commits=[c.split()[0] for c in commits],
-            add_only=True,
+            add_only=False,
         ),
         engines=[dict(name='kani-cbmc', path='/verif/bin/check', serves_properties=sorted(CLAIMS),
                       kind_free_text='Kani 0.68 -> CBMC 6.11 (CaDiCaL) bounded model checking of the real crates; native replayer l21v-replay')],
